@@ -1,6 +1,6 @@
 (* Proofs/C35Caps.v — capability.List: DecodeList (String l) = l. *)
 From Coq Require Import List NArith ZArith Bool Lia Arith.
-From GoGit Require Import Base.Out Model.PktLine Model.Packp Proofs.C34Pkt Proofs.C35Base Proofs.C35Msgs.
+From GoGit Require Import Base.Out Model.PktLine Model.C35Utf8 Model.Packp Proofs.C34Pkt Proofs.C35Base Proofs.C35Utf8 Proofs.C35Msgs.
 Import ListNotations.
 
 Definition EQ : N := 61.
@@ -26,6 +26,13 @@ Proof.
   destruct (N.eqb_spec c 9); [lia|]. destruct (N.eqb_spec c 10); [lia|]. destruct (N.eqb_spec c 11); [lia|].
   destruct (N.eqb_spec c 12); [lia|]. destruct (N.eqb_spec c 13); [lia|]. destruct (N.eqb_spec c 32); [lia|].
   split; reflexivity.
+Qed.
+
+Lemma tokc_asciins c : tokc c = true -> asciins c = true.
+Proof.
+  intros H. destruct (tokc_facts c H) as [Hs _]. unfold asciins, ascii. rewrite Hs.
+  unfold tokc in H. apply andb_prop in H. destruct H as [_ H2]. apply N.leb_le in H2.
+  destruct (N.ltb_spec c 128); [reflexivity|lia].
 Qed.
 
 (* ---------- cap_add ---------- *)
@@ -62,8 +69,8 @@ Definition cap_step (acc : caps) (chunk : bytes) : caps :=
   end.
 
 Lemma cap_decode_fold raw l : cap_decode raw l =
-  match trim_space raw with [] => l | r => fold_left cap_step (split_on SP r) l end.
-Proof. unfold cap_decode. destruct (trim_space raw); reflexivity. Qed.
+  match trim_space_u raw with [] => l | r => fold_left cap_step (split_on SP r) l end.
+Proof. unfold cap_decode. destruct (trim_space_u raw); reflexivity. Qed.
 
 Lemma key_noeq k : key_ok k = true -> no_byte EQ k = true /\ k <> [].
 Proof.
@@ -168,8 +175,8 @@ Proof.
   rewrite <- E in *.
   pose proof (join_tokc (cap_tokens l) Ht ltac:(rewrite E; discriminate)) as J.
   destruct (join [SP] (cap_tokens l)) as [|c j] eqn:EJ; [contradiction|]. destruct J as [J1 J2].
-  rewrite trim_space_id.
-  2:{ destruct (tokc_facts _ J1) as [-> _]. destruct (tokc_facts _ J2) as [-> _]. reflexivity. }
+  rewrite trim_u_id.
+  2:{ unfold clean_u. now rewrite (tokc_asciins _ J1), (tokc_asciins _ J2). }
   rewrite <- EJ. rewrite split_join.
   - rewrite fold_tokens; [reflexivity| |assumption|].
     + rewrite forallb_forall in *. intros e He. specialize (H1 e He). apply andb_prop in H1. apply H1.
